@@ -81,7 +81,12 @@ def make_cfg(i, seed):
 
 
 def _build(c, tmp):
-    c = dict(c, output_dir=tmp, output_label="ck")
+    if c.get("default_dir"):
+        # no output_dir / output_label given: checkpoints go to ./states/ps_<k>.state relative to the working directory
+        os.chdir(tmp)
+        c = {k: v for k, v in c.items() if k not in ("output_dir", "output_label")}
+    else:
+        c = dict(c, output_dir=tmp, output_label="ck")
     if c.get("pool") == "threadlike":
         c["pool"] = _ThreadPoolLike()
     return runs.build(c)
@@ -92,6 +97,7 @@ def scenario(cfg, n_resume, seed2, second_gen=False):
     from tempest.core import SamplerCore
     out = dict(bad=[], saves=0, restored=0, resumed=0, nontrivial_resume=0)
     tmp = tmpdir()
+    cwd0 = os.getcwd()
     try:
         c = runs.full(cfg)
         np.random.seed(c["seed"])
@@ -133,7 +139,14 @@ def scenario(cfg, n_resume, seed2, second_gen=False):
                 out["bad"].append(("restore-mismatch", f"{os.path.basename(sv['path'])}: loaded state differs from the state at save time "
                                    f"(history length {hl2} vs {sv['hl']}, u is None: {s2.state.get_current('u') is None})"))
         # leftovers: a complete save must not leave stray temp files
-        stray = [f for f in os.listdir(tmp) if not f.endswith(".state")]
+        ckdir = os.path.dirname(saves[0]["path"]) if saves else tmp        # (./states under tmp when output_dir is left at its default)
+        stray = [f for f in os.listdir(ckdir) if not f.endswith(".state")]
+        if c.get("default_dir"):
+            exp_dir = os.path.realpath(os.path.join(tmp, "states"))
+            if os.path.realpath(ckdir) != exp_dir or not all(os.path.basename(sv["path"]).startswith("ps_") for sv in saves):
+                out["bad"].append(("default-output-location", f"with output_dir / output_label left at their defaults checkpoints were written to {sorted(set(os.path.basename(sv['path']) for sv in saves))[:3]} "
+                                   f"in {ckdir}, documented: ./states/ps_<k>.state"))
+            stray += [f for f in os.listdir(tmp) if f != "states"]
         if stray:
             out["bad"].append(("stray-temp-file", f"files left beside checkpoints after a complete run: {stray[:3]}"))
         # resume
@@ -219,6 +232,7 @@ def scenario(cfg, n_resume, seed2, second_gen=False):
                     shutil.rmtree(tmp2, ignore_errors=True)
         return out
     finally:
+        os.chdir(cwd0)
         shutil.rmtree(tmp, ignore_errors=True)
 
 
@@ -665,6 +679,9 @@ def run():
     idxs = [0, 1, 2, 3, 5, 11, 6] if ck.quick else list(range(ncfg))     # quick: incl. the integer-pool and cluster_every=2 configurations
     tasks = [("tvf.checks.c08:scenario", dict(cfg=make_cfg(i, ck.subseed("cfg", i)), n_resume=ck.pick(2, 6), seed2=ck.subseed("res", i)), None)
              for i in idxs]
+    # output_dir / output_label left at their defaults (./states/ps_*.state under the working directory)
+    for j, i in enumerate(ck.pick([1, 2], [1, 2, 0, 6, 9, 11])):
+        tasks.append(("tvf.checks.c08:scenario", dict(cfg=dict(make_cfg(i, ck.subseed("dcfg", i)), default_dir=True, progress=bool(j % 2)), n_resume=2, seed2=ck.subseed("dres", i)), None))
     # the same with the progress display on (run()'s default): the live bar is part of what a checkpoint pickles; incl. readers
     # with clustering and cluster_every > 1
     for j, i in enumerate(ck.pick([6, 9, 2], [6, 9, 2, 1, 0, 5, 12, 11])):
@@ -686,6 +703,8 @@ def run():
         ck.case(dict(restore_resume=cfg), nontrivial=val["nontrivial_resume"] > 0)
         if cfg.get("xdtype"):
             ck.event("restore / resume scenarios with particle coordinates in float32 or extended precision")
+        if cfg.get("default_dir"):
+            ck.event("restore / resume scenarios with output_dir / output_label at their defaults (./states/ps_*.state)")
         if cfg.get("progress"):
             ck.event("restore / resume scenarios written and read with the progress display on")
         ck.event("checkpoints written", val["saves"])
